@@ -1,4 +1,4 @@
-\* E1 generation: all histories of length <= 5 (valid and invalid calls).
+\* E1 generation: all histories of length <= 4 (valid and invalid calls).
 CONSTANTS
   Main <- c_Main
   Derived <- c_Derived
@@ -6,6 +6,8 @@ CONSTANTS
   NDim = 2
   Coords <- c_Coords
   Labels = {"L1", "L2"}
+  DupIds = {"d1", "d2"}
+  DupOf = {"a", "x", "p1"}
 INIT Init
 NEXT Next
-CONSTRAINT D5
+CONSTRAINT D4
